@@ -179,6 +179,10 @@ type ChT struct{ X string }
 type ChU struct{ Y string }
 type ChW struct{ Z string }
 
+// a keyed union whose member is itself a keyed union (atlas 90): served by one and the same machine of one slab row
+type UzOuter interface{}
+type UzInner interface{}
+
 // structs with more fields than a one-byte counter holds (and more than a signed one does)
 var hugeT130, hugeT260 = hugeStruct(130), hugeStruct(260)
 
@@ -639,8 +643,12 @@ func buildAtlases() {
 	mk(6, atlas.KeySortMode_Default, atlas.KeySortMode_Default, false, mmEntry(StrMap{}, -1, atlas.KeySortMode_RFC7049))
 	// 90: the chained transforms (not part of the generic loops over the zoo's atlases)
 	{
-		es := []*atlas.AtlasEntry{trEntry(ChT{}, 14, -1), trEntry(ChU{}, 15, -1), trEntry(ChW{}, 16, -1)}
-		atlases = append(atlases, &atlasCfg{id: 90, atl: atlas.MustBuild(es...), entries: es, nReg: len(es), sort: atlas.KeySortMode_Default})
+		uzc := atlas.BuildEntry(Circle{}).StructMap().Autogenerate().Complete()
+		uzInner := atlas.BuildEntry((*UzInner)(nil)).KeyedUnion().Of(map[string]*atlas.AtlasEntry{"c": uzc})
+		uzOuter := atlas.BuildEntry((*UzOuter)(nil)).KeyedUnion().Of(map[string]*atlas.AtlasEntry{"u": uzInner, "c": uzc})
+		es := []*atlas.AtlasEntry{trEntry(ChT{}, 14, -1), trEntry(ChU{}, 15, -1), trEntry(ChW{}, 16, -1), uzOuter}
+		pool := append(append([]*atlas.AtlasEntry{}, es...), uzInner, uzc)
+		atlases = append(atlases, &atlasCfg{id: 90, atl: atlas.MustBuild(es...), entries: pool, nReg: len(es), sort: atlas.KeySortMode_Default})
 	}
 	// 5: DERIVED from atlas 1 (which stays in use) with another default map order: same entries, independent configuration
 	for _, a1 := range atlases {
@@ -778,6 +786,8 @@ func zooDefs() []string {
 	tid(reflect.TypeOf((*ChU)(nil)))
 	tid(reflect.TypeOf([]ChU{}))
 	tid(reflect.TypeOf((*string)(nil)))
+	tid(reflect.TypeOf((*UzOuter)(nil)).Elem())
+	tid(reflect.TypeOf((*UzInner)(nil)).Elem())
 	for _, fam := range shapeFamilies {
 		for _, t := range fam.all {
 			tid(t)
